@@ -30,12 +30,13 @@ func scnRenewRecipes(ctx *check.JobCtx) {
 	// "<mode>+rewards": the same recipe with block rewards actually flowing (claims meet debts and renewals)
 	// "<mode>+twin": a second model of the other owner is stored and completed in the same blocks with the same
 	// duration, so that its shards share every scheduled height with the recipe's model; it is never touched again
-	withRewards, withTwin := false, false
+	withRewards, withTwin, twinFirst := false, false, false
 	if parts := strings.Split(mode, "+"); len(parts) > 1 {
 		mode = parts[0]
 		for _, f := range parts[1:] {
 			withRewards = withRewards || f == "rewards"
-			withTwin = withTwin || f == "twin"
+			withTwin = withTwin || f == "twin" || f == "twinfirst"
+			twinFirst = twinFirst || f == "twinfirst"
 		}
 	}
 	w := newLifeWorld(ctx, monitorsFor(ctx.Job.Prop)...)
@@ -43,7 +44,7 @@ func scnRenewRecipes(ctx *check.JobCtx) {
 	p := DefaultLife()
 	p.Providers = 4
 	p.BlockReward = 1000
-	p.PoorSP = mode == "debt-release" || mode == "debt-expire" || mode == "debt-multi"
+	p.PoorSP = mode == "debt-release" || mode == "debt-expire" || mode == "debt-multi" || mode == "debt-small-release"
 	if mode == "tiny-reduce" {
 		p.Providers = 2 // no spare provider: a silent replica can only be given up
 	}
@@ -174,6 +175,69 @@ func scnRenewRecipes(ctx *check.JobCtx) {
 		}
 		for _, sp := range l.SP {
 			w.Claim(sp.Acct)
+		}
+		w.EndBlock()
+		w.Sample("recipe %s: %s", mode, traceSummary(w))
+		w.Finish()
+		return
+	}
+	if mode == "renew-after-replacement" {
+		// one of two providers stays silent and is replaced at the examination; the replacement completes and the
+		// owner renews right away, before the next examination prunes the given-up shard row
+		to := int32(20 + r.Intn(20))
+		_, oid := w.Store(world.StoreReq{Owner: o.Id, Gateway: g, DataId: did, CommitId: did, Duration: 3600, Replica: 2, Timeout: to, Size: size})
+		if od, ok := w.Cur.Orders[oid]; ok && len(od.Shards) == 2 {
+			sh := w.Cur.Shards[od.Shards[r.Intn(2)]]
+			if pr := w.ProviderByAddr(sh.Sp); pr != nil {
+				w.Complete(pr.Acct, nil, oid, sh.Size_)
+			}
+			w.EndBlock()
+			w.Advance(int64(to) + 1)
+			n := w.CompleteAll(oid)
+			w.EndBlock()
+			w.Advance(int64(r.Intn(int(to) - 3)))
+			e := w.Renew(o.Id, nil, g.Acct, "", 3600+uint64(r.Intn(1000)), 300, nil, did)
+			w.EndBlock()
+			w.Case("recipe:%s:replacement-completed=%d,renew-tx=%v", mode, n, e.OK)
+			w.Advance(int64(to) * 2)
+			// and once more after the clean-up
+			w.Renew(o.Id, nil, g.Acct, "", 3600+uint64(r.Intn(1000)), 300, nil, did)
+			w.EndBlock()
+		}
+		for round := 0; round < 12 && !w.Halted(); round++ {
+			next := l.nextScheduled()
+			if next == 0 || int64(next) > w.C.Height+40000 {
+				break
+			}
+			w.AdvanceTo(int64(next) + 1)
+		}
+		w.Sample("recipe %s: %s", mode, traceSummary(w))
+		w.Finish()
+		return
+	}
+	if mode == "dust-claims" {
+		// a shard earning far less than a coin per block; its providers claim every few blocks for a long time
+		_, oid := w.Store(world.StoreReq{Owner: o.Id, Gateway: g, DataId: did, CommitId: did, Duration: 3600, Replica: 2, Timeout: 500, Size: uint64(500 + r.Intn(1500))})
+		w.CompleteAll(oid)
+		w.EndBlock()
+		for k := 0; k < 120 && !w.Halted(); k++ {
+			w.Advance(int64(1 + r.Intn(40)))
+			for _, sp := range l.SP {
+				if r.Intn(2) == 0 {
+					w.Claim(sp.Acct)
+				}
+			}
+		}
+		w.Case("recipe:%s", mode)
+		for round := 0; round < 12 && !w.Halted(); round++ {
+			next := l.nextScheduled()
+			if next == 0 || int64(next) > w.C.Height+40000 {
+				break
+			}
+			w.AdvanceTo(int64(next) + 1)
+			for _, sp := range l.SP {
+				w.Claim(sp.Acct)
+			}
 		}
 		w.EndBlock()
 		w.Sample("recipe %s: %s", mode, traceSummary(w))
@@ -313,15 +377,21 @@ func scnRenewRecipes(ctx *check.JobCtx) {
 		replica = int32(len(l.SP) - 1)
 		size = 1000
 	}
-	_, oid := w.Store(world.StoreReq{Owner: o.Id, Gateway: g, DataId: did, CommitId: did, Duration: d1, Replica: replica, Timeout: 500, Size: size})
 	var twinOid uint64
-	if withTwin {
+	mkTwin := func() {
 		o2 := l.Owners[0]
 		if o2 == o {
 			o2 = l.Owners[1]
 		}
 		td := w.NewDataId()
 		_, twinOid = w.Store(world.StoreReq{Owner: o2.Id, Gateway: g, DataId: td, CommitId: td, Duration: d1, Replica: replica, Timeout: 500, Size: size})
+	}
+	if withTwin && twinFirst {
+		mkTwin() // the twin is listed BEFORE the recipe's model at every shared schedule height
+	}
+	_, oid := w.Store(world.StoreReq{Owner: o.Id, Gateway: g, DataId: did, CommitId: did, Duration: d1, Replica: replica, Timeout: 500, Size: size})
+	if withTwin && !twinFirst {
+		mkTwin()
 	}
 	w.CompleteAll(oid)
 	if twinOid != 0 {
@@ -358,6 +428,33 @@ func scnRenewRecipes(ctx *check.JobCtx) {
 	}
 	renew := func(d uint64) { w.Renew(o.Id, nil, g.Acct, "", d, 300, nil, did) }
 	switch mode {
+	case "terminate-at-expiry", "fp-at-expiry":
+		// the owner ends the version in the very block whose end blocker would release its shards
+		if od, ok := w.Cur.Orders[oid]; ok && len(od.Shards) > 0 {
+			sh := w.Cur.Shards[od.Shards[0]]
+			w.AdvanceTo(int64(sh.CreatedAt+sh.Duration) - 1)
+			if mode == "terminate-at-expiry" {
+				w.Terminate(o.Id, nil, g.Acct, "", did, nil)
+			} else if md, ok := w.Cur.Metas[did]; ok {
+				_, fp := w.Store(world.StoreReq{Owner: o.Id, Gateway: g, DataId: did, CommitId: md.Commit + "|" + (did[:28] + "-fpaexxxxxxxxxxxx")[:36], Duration: 3600, Replica: 1, Timeout: 300, Size: size, Operation: 2, Alias: world.AliasOf(md.Alias)})
+				if fp != 0 {
+					w.CompleteAll(fp)
+				}
+			}
+		}
+	case "debt-small-release":
+		// the provider without funds also holds a tiny shard; a long renewal of the big model records a debt larger
+		// than the tiny shard's collateral; the tiny model then ends while the debt is open
+		tiny := w.NewDataId()
+		_, to := w.Store(world.StoreReq{Owner: o.Id, Gateway: g, DataId: tiny, CommitId: tiny, Duration: 3600, Replica: replica, Timeout: 500, Size: 1000})
+		w.CompleteAll(to)
+		w.EndBlock()
+		renew(60 * 60 * 24 * 30)
+		w.EndBlock()
+		w.Advance(int64(20 + r.Intn(200)))
+		if r.Intn(2) == 0 {
+			w.Terminate(o.Id, nil, g.Acct, "", tiny, nil)
+		}
 	case "exam-during-migration":
 		// a provider starts to hand its shard over and the owner renews BEFORE the fully stored order's first
 		// timeout examination (created + 500) comes up; the new provider completes afterwards
@@ -488,7 +585,7 @@ func scnRenewRecipes(ctx *check.JobCtx) {
 		}
 	}
 	w.EndBlock()
-	w.Case("recipe:%s:replica=%d,rewards=%v,twin=%v", mode, replica, withRewards, withTwin)
+	w.Case("recipe:%s:replica=%d,rewards=%v,twin=%v,first=%v", mode, replica, withRewards, withTwin, twinFirst)
 	// cross every scheduled height, claiming now and then
 	for round := 0; round < 12 && !w.Halted(); round++ {
 		next := l.nextScheduled()
